@@ -49,11 +49,22 @@ def usetmask_table(n2p, out):
             u |= tab[x]
         out.append(V("mkusetmask::base-set bits of %s == union of the masks of %s" % (S, "+".join(sorted(members(S)))),
                      "proved" if (tab[S] & allbase) == u else "failed", {"mask": tab[S], "method": "evaluation"}, N2P))
-    for expr in ("q+r", "b+c+r", "a+e", "m+s+o"):
-        want = 0
-        for x in expr.split("+"):
-            want |= tab[x]
-        out.append(V("mkusetmask('%s') is the union" % expr, "proved" if n2p.mkusetmask(expr) == want else "failed", {"method": "evaluation"}, N2P))
+    # 'x+y' expressions denote the UNION (bitwise or) of the named sets - for every ordered pair of set names in the table (the sets overlap:
+    # 'a+b', 'q+q', 't+r' ...; a finite domain, so the enumeration is complete) and for three-term expressions over a spread of names
+    names = [k for k in tab if isinstance(k, str)]
+    bad = []
+    for x in names:
+        for y in names:
+            if n2p.mkusetmask(x + "+" + y) != (tab[x] | tab[y]):
+                bad.append(x + "+" + y)
+    out.append(V("mkusetmask('x+y') == mask[x] | mask[y] for all %d ordered pairs of set names (overlapping and repeated sets included)" % (len(names) ** 2),
+                 "failed" if bad else "proved", {"failing": bad[:8], "method": "exhaustive evaluation of a finite domain"}, N2P))
+    bad = []
+    for x, y, z_ in itertools.product(names[::3], names[1::3], names[2::3]):
+        if n2p.mkusetmask("+".join((x, y, z_))) != (tab[x] | tab[y] | tab[z_]):
+            bad.append("+".join((x, y, z_)))
+    out.append(V("mkusetmask('x+y+z') == union, %d three-term expressions" % (len(names[::3]) * len(names[1::3]) * len(names[2::3])), "failed" if bad else "proved",
+                 {"failing": bad[:8], "method": "evaluation"}, N2P))
     # lifted to every consistent USET word  u = mask[B] | X,  X within the own bits of the supersets containing B
     ownbits = {}
     for S in UNION:           # the superset's own NDDL bit(s): its mask minus the masks of its documented members
